@@ -59,21 +59,15 @@ pub fn set_thread(id: u32) {
 
 /// Registers the class of a lock instance (by address). Call once the lock has its final address.
 pub fn register<T>(lock: &RwLock<T>, class: &str) {
-    if ON.load(Ordering::Relaxed) {
-        let addr = unsafe { lock.raw() } as *const TracedRaw as usize;
-        CLASSES.lock().get_or_insert_with(HashMap::new).insert(addr, class.to_string());
-    }
+    let addr = unsafe { lock.raw() } as *const TracedRaw as usize;
+    CLASSES.lock().get_or_insert_with(HashMap::new).insert(addr, class.to_string());
 }
 
-/// Same, with the class computed only while tracing is on and only the first time the instance is seen.
+/// Same, with the class computed (and recorded) only while tracing is on.
 pub fn register_with<T>(lock: &RwLock<T>, class: impl FnOnce() -> String) {
     if ON.load(Ordering::Relaxed) {
         let addr = unsafe { lock.raw() } as *const TracedRaw as usize;
-        let mut c = CLASSES.lock();
-        let m = c.get_or_insert_with(HashMap::new);
-        if !m.contains_key(&addr) {
-            m.insert(addr, class());
-        }
+        CLASSES.lock().get_or_insert_with(HashMap::new).insert(addr, class());
     }
 }
 
@@ -84,7 +78,6 @@ pub fn enabled() -> bool {
 
 pub fn start(gated: bool) {
     LOG.lock().clear();
-    *CLASSES.lock() = Some(HashMap::new());
     *GATE.0.lock() = Some(HashMap::new());
     SEQ.store(0, Ordering::SeqCst);
     GATED.store(gated, Ordering::SeqCst);
